@@ -43,8 +43,8 @@ class StabilizerSampler(sampler.Sampler):
         results: list[cirq.Result] = []
         for param_resolver in cirq.to_resolvers(params):
             resolved_circuit = cirq.resolve_parameters(program, param_resolver)
-            measurements = self._run(resolved_circuit, repetitions=repetitions)
-            results.append(cirq.ResultDict(params=param_resolver, measurements=measurements))
+            records = self._run(resolved_circuit, repetitions=repetitions)
+            results.append(cirq.ResultDict(params=param_resolver, records=records))
         return results
 
     def _run(self, circuit: cirq.AbstractCircuit, repetitions: int) -> dict[str, np.ndarray]:
@@ -61,7 +61,8 @@ class StabilizerSampler(sampler.Sampler):
             for op in circuit.all_operations():
                 protocols.act_on(op, state)
 
-            for k, v in state.log_of_measurement_results.items():
-                measurements[k].append(np.array(v, dtype=np.uint8))
+            # Every instance of a (possibly repeated) key: repetitions x instances x qubits.
+            for key, record in state.classical_data.records.items():
+                measurements[str(key)].append(np.array(record, dtype=np.uint8))
 
         return {k: np.array(v) for k, v in measurements.items()}
